@@ -108,6 +108,18 @@ func (w *World) doSetKeys(in Intent) {
 		key, signKey = k2, k2
 		extAddr = eip55(ext.KeyAddr(k2))
 		orch = hub.NewAccount(fmt.Sprintf("orch-%s-x%s", label, other))
+	case "rotate_orch", "rotate_orch_badsig": // keep the CURRENT external address, bind a new orchestrator
+		cur, ok := w.keyModelOf(chain).valExt[valAddr.String()]
+		k2 := w.extKeyByAddr[cur]
+		if !ok || k2 == nil {
+			return
+		}
+		key, signKey = k2, k2
+		extAddr = eip55(ext.KeyAddr(k2))
+		orch = hub.NewAccount(fmt.Sprintf("orch-%s-rot%d", label, in.Pick))
+		if in.Op == "rotate_orch_badsig" {
+			signKey = ext.DetEthKey(label + "-other")
+		}
 	case "steal_orch":
 		o := w.val(in.Pick)
 		if oo, ok := o.Orch[chain]; ok {
